@@ -1,9 +1,10 @@
 #!/bin/sh
 # usage: try_patch.sh <patch.diff> [worktree]  -- applies the patch in a scratch worktree of /repo, runs the pinned suite, restores
 W=${2:-/tmp/mw}
+P=$(readlink -f "$1")
 [ -d "$W" ] || git -C /repo worktree add -q --detach "$W" HEAD
 cd "$W" || exit 2
-git checkout -q -- . && git apply --whitespace=nowarn "$1" || { echo "$(basename $1): DOES NOT APPLY"; exit 2; }
+git checkout -q -- . && git apply --whitespace=nowarn "$P" || { echo "$(basename $1): DOES NOT APPLY"; exit 2; }
 R=$(PYTHONPATH=$W/src PYTHONDONTWRITEBYTECODE=1 timeout 400 /venv/bin/python -m pytest -q -p no:cacheprovider --timeout=30 --continue-on-collection-errors 2>&1 | tail -1)
 git checkout -q -- .
 echo "$(basename $1): $R"
